@@ -14,6 +14,7 @@ import re
 import struct
 import sys
 from fractions import Fraction
+from decimal import Decimal
 
 import vlib
 
@@ -49,6 +50,7 @@ THEOREM_CLASSES = {
     "C14_int2str_str2int_roundtrip": "main",
     "C14_str2int_sound": "main", "C14_str2int_shape_separates": "corollary",
     "C14_todecsci_reads_back_partial": "main", "C14_todecsci_first_partial": "main",
+    "C14_emit_inf_guard": "tripwire",
     "C14_print_dot0_eq_lua": "main", "C14_force_fract_not_int_like": "main",
 }
 MANIFEST_ENTRY = {
@@ -66,6 +68,8 @@ MANIFEST_ENTRY = {
                  "with exact-arithmetic oracles",
 }
 UNPROVED = [
+    "float literals at the rounding boundaries of binary32 / binary64 (largest finite, the overflow threshold max + half ulp, smallest normal and subnormal, half the smallest subnormal; decimal and hexadecimal spellings, both signs; routes: type suffix, typed local, float64 compile-time constant converted) are sampled on every run and compared bit for bit with the correctly rounded value of the type computed in exact rational arithmetic - testing, no theorem; the only proved fact about the printer's infinity branch is the scraped trip-wire C14_emit_inf_guard",
+    "DOCUMENTED LIMITATION, not a finding: a float32 literal is a binary64 at compile time, so a literal with more than 17 significant digits whose double is exactly a float32 tie is rounded twice by construction (counted per run under 'documented:float32-literal-is-binary64-at-compile-time'); integer literals above the int64 range without a suffix (print(0x8000000000000000), print(0xffffffffffffffff)) are REJECTED with a diagnostic where Lua wraps them - stricter than Lua, never a silently different value; cdefs.lua derives ldbl_decimal_dig from __DBL_DECIMAL_DIG__ (17): harmless for literals, whose compile-time value is a binary64 anyway",
     "every float clause: correctly rounded reading of decimal float literals (fraction, exponent, suffix) and of hexadecimal float literals (from(16,2,int,frac,exp) is now only a fall-back behind Lua's tonumber), float emission, run-time tonumber / tostring / print of floats: oracle only (Python Fractions); the planned verified 'nearest_ok' checker (Flocq) and 'hexfloat_exact' do not exist - Flocq 4.1.0 is installed but a decimal->binary64 checker needs the half-ulp argument or Fdiv_core + binary_round_aux, not attempted",
     "strconv.str2num: NOT correctly rounded (known finding); its algorithm is modelled only executably (harness/C14/str2num_model.py, bit-exact against the library on the normal range), with no theorem; strconv.num2str: oracle only",
     "'17 digits and back is the identity' is a PREMISE of C14_todecsci_reads_back_partial, not a theorem; the exponent clean-up gsub('([Ee][+-])0+','%1') and the forced '.0' applied after the ladder are not covered by it (C14_force_fract_not_int_like covers the shape of the '.0' only); the float32 ladder (decimaldigits < 16, 9 digits) is not modelled",
@@ -88,6 +92,17 @@ def gen(ctx):
     ok, log = vlib.coq_build("C17")
     if not ok:
         raise RuntimeError("cannot build coq/C17, which coq/C14/ProofsBn.v imports: " + log[-800:])
+    # a rebuilt C17 invalidates what was compiled against it (make does not always see it across sub-projects)
+    d14, d17 = vlib.coq_dir(ID), vlib.coq_dir("C17")
+    mine = [os.path.join(d14, f) for f in ("ProofsBn.vo", "Properties.vo")]
+    newest17 = max([os.path.getmtime(os.path.join(d17, f)) for f in os.listdir(d17) if f.endswith(".vo")] or [0])
+    for f in mine:
+        if os.path.exists(f) and os.path.getmtime(f) < newest17:
+            for g in (f, f[:-3] + ".vos", f[:-3] + ".vok", f[:-3] + ".glob"):
+                try:
+                    os.remove(g)
+                except OSError:
+                    pass
     ctx.c14info = info
     slim = dict(info)
     slim.pop("suffix_table", None)
@@ -277,7 +292,7 @@ def correspond(ctx):
     def viol(key, summary, detail, failing=True, kind="oracle"):
         allv.append("%s | %s" % (key, summary[:200]))
         problems["oracle" if failing else "model"] += 1
-        if key in STR2NUM_WITNESSES or key in STR2INT_WITNESSES:
+        if key in STR2NUM_WITNESSES or key in STR2INT_WITNESSES or key in F32_TEXT_WITNESSES or key in HEXFLOAT_INT_WITNESSES:
             ctx.violation(key, kind, summary, detail=detail, failing_input=failing)      # designated witnesses: always reported
             return
         capped["oracle" if failing else "model"] += 1
@@ -374,6 +389,24 @@ def correspond(ctx):
         add("emitf", "emitf float64 %016x" % f64_bits(x), "?", ("emitf", 64, x))
         x32 = struct.unpack("<f", struct.pack("<f", max(min(x, 3.4e38), -3.4e38)))[0]
         add("emitf", "emitf float32 %016x" % f64_bits(x32), "?", ("emitf", 32, x32))
+    # float32 constants whose compile-time value is a double that is NOT a float32 value (a float32 literal is read as a double,
+    # a float64 constant may be converted): the doubles next to every float32 rounding boundary, and random float32 ties +- a bit
+    bdoubles = set()
+    for text, fr in boundary_literals(32):
+        dd = rnd_w(64, fr)
+        if dd is not None:
+            bdoubles.add(float(dd))
+    for _ in range(ctx.scale(200, 3000)):
+        f32 = struct.unpack("<f", struct.pack("<I", rng.randrange(0x00800000, 0x7f7fffff)))[0]
+        nxt = struct.unpack("<f", struct.pack("<I", struct.unpack("<I", struct.pack("<f", f32))[0] + 1))[0]
+        tie = (f32 + nxt) / 2                                   # exact in double
+        bdoubles.add(tie)
+        bdoubles.add(f64_from_bits(f64_bits(tie) + rng.choice([1, 2, 1 << 20])))
+        bdoubles.add(f64_from_bits(f64_bits(tie) - rng.choice([1, 2, 1 << 20])))
+    bdoubles.add(16777217.000001)
+    for x in sorted(bdoubles):
+        for sg in (1, -1):
+            add("emitf-boundary", "emitf float32 %016x" % f64_bits(sg * x), "?", ("emitf", 32, sg * x))
     for line in corpus:
         w = line.split()
         if w[0] == "emit" and w[1] in tids:
@@ -474,17 +507,25 @@ def correspond(ctx):
         elif kind == "emitf":
             _, width, x = m
             txt = got[:-1] if got.endswith("f") else got
-            fr = dec_text_to_fraction(txt)
-            if fr is None:
-                viol(line, "float literal printer produced '%s'" % got, {"case": line, "implementation": got})
-                continue
-            if width == 64:
-                r = round_binary(fr, 53, -1022, 1023)
+            neg = str(x)[0] == "-"
+            want = fbits(width, rnd_w(width, abs(Fraction(x))), neg)       # the constant converted to the type
+            if re.search(r"INF", got):
+                gotbits = fbits(width, None, got.lstrip("(").startswith("-"))
             else:
-                r = round_binary(fr, 24, -126, 127)
-            if r is None or float(r) != x or ((r == 0) and (str(x)[0] == "-") != txt.startswith("-")):
-                viol(line, "float%d literal %r is emitted as '%s', which a C compiler reads as %r" % (width, x, got, None if r is None else float(r)),
-                     {"case": line, "implementation": got, "oracle": repr(x)})
+                fr = dec_text_to_fraction(txt)
+                if fr is None:
+                    viol(line, "float literal printer produced '%s'" % got, {"case": line, "implementation": got})
+                    continue
+                gotbits = fbits(width, rnd_w(width, abs(fr)), txt.startswith("-"))
+            if gotbits != want:
+                pred = fbits(32, f32_via_9_digits(abs(x)), neg) if width == 32 else None
+                if width == 32 and line not in F32_TEXT_WITNESSES and gotbits == pred \
+                        and any(l == F32_TEXT_WITNESSES[2] and not g.startswith("16777218") for l, g in zip(impl_lines, il)):
+                    k = "predicted-by-model:cemitter.add_scalar_literal:float32-through-9-digits(double constant)"
+                    dist[k] = dist.get(k, 0) + 1
+                    continue
+                viol(line, "float%d constant %r is emitted as '%s', which a C compiler reads as %s; the value converted to the type is %s" % (width, x, got, gotbits, want),
+                     {"case": line, "implementation": got, "oracle": want})
             elif not re.search(r"[.eE]|inf|nan", txt):
                 viol(line, "float literal emitted without fraction or exponent: '%s' (an integer constant in C)" % got, {"case": line, "implementation": got})
             else:
@@ -657,6 +698,8 @@ def correspond(ctx):
     # ---------------------------------------------------------------- 3. end to end: probe programs
     ncase = probe_programs(ctx, rng, info, model, viol, nontrivial, dist, reader_witness=WITNESS_READ)
     evals += ncase
+    evals += boundary_probe(ctx, viol, nontrivial, dist)
+    evals += hexfloat_int_probe(ctx, viol, nontrivial, dist)
 
     with open(os.path.join(ctx.work, "failures.txt"), "w") as f:
         f.write("\n".join(allv) + "\n")
@@ -721,6 +764,217 @@ def prune_work(ctx, max_age=7200):
                     shutil.rmtree(p) if os.path.isdir(p) else os.remove(p)
             except OSError:
                 pass
+
+
+# --------------------------------------------------------------------------------------------
+# float literals at the rounding boundaries of binary32 / binary64
+# --------------------------------------------------------------------------------------------
+FMT = {32: (24, -126, 127), 64: (53, -1022, 1023)}
+# OPEN finding (exact keys): a float32 constant is printed with 9 significant digits of the DOUBLE it was read as; when
+# that double is not a float32 value the 9-digit text can land on the other side of a float32 rounding boundary
+F32_TEXT_WITNESSES = ["lit32 A 16777217.000001", "lit32 A 0x1.fffffefffffffp+127", "emitf float32 417000001000010c"]
+
+
+def fbits(width, r, neg=False):
+    """bit pattern (hex) of a correctly rounded result: Fraction, or None for infinity"""
+    if width == 32:
+        v = float("inf") if r is None else float(r)
+        b = struct.unpack("<I", struct.pack("<f", v))[0]
+        if neg or (r is not None and r < 0):
+            b |= 0x80000000
+        return "%08x" % b
+    v = float("inf") if r is None else float(r)
+    b = f64_bits(v)
+    if neg or (r is not None and r < 0):
+        b |= 1 << 63
+    return "%016x" % b
+
+
+def rnd_w(width, fr):
+    """correct rounding of a non-negative Fraction to the format: Fraction or None (infinity)"""
+    pb, emin, emax = FMT[width]
+    return round_binary(fr, pb, emin, emax)
+
+
+def f32_via_9_digits(d):
+    """model of the UNCHANGED emitter for a float32 constant whose compile-time value is the double d >= 0: bn.todecsci with
+    9 significant digits (no ladder below 16 digits), read by the C compiler as a float constant"""
+    if d == float("inf"):
+        return None
+    return rnd_w(32, Fraction(Decimal("%.9g" % d)))
+
+
+def dec_down_up(fr, nd):
+    """the two decimal numerals with nd significant digits that bracket the positive Fraction fr (scientific notation)"""
+    e = 0
+    while fr >= Fraction(10) ** (e + 1):
+        e += 1
+    while fr < Fraction(10) ** e:
+        e -= 1
+    scaled = fr / Fraction(10) ** (e - nd + 1)
+    lo = scaled.numerator // scaled.denominator
+    out = []
+    for m in (lo, lo + 1):
+        ds = str(m)
+        out.append("%s.%se%d" % (ds[0], ds[1:] or "0", e + (len(ds) - nd)))
+    return out
+
+
+def boundary_literals(width):
+    """(spelling, exact value) of positive literals aimed at the rounding boundaries of the format, decimal and hexadecimal"""
+    pb, emin, emax = FMT[width]
+    two = Fraction(2)
+    M = (two - two ** (1 - pb)) * two ** emax                # largest finite
+    mid = (two - two ** (-pb)) * two ** emax                 # M + half ulp: the first value that rounds to infinity
+    minn = two ** emin                                       # smallest normal
+    mins = two ** (emin - pb + 1)                            # smallest subnormal
+    pts = [M, mid, (M + mid) / 2, mid + (mid - M) / 2, M - (mid - M), minn, minn - mins / 2, mins, mins / 2, mins * 3 / 2, mins / 4, mins * 3 / 4]
+    lits = []
+    for fr in pts:
+        for nd in ((9, 12, 20) if width == 32 else (17, 20, 25)):
+            for t in dec_down_up(fr, nd):
+                lits.append((t, Fraction(Decimal(t))))
+    # hexadecimal spellings (exact)
+    def hx(fr):
+        e = 0
+        while fr >= two ** (e + 1): e += 1
+        while fr < two ** e: e -= 1
+        m = fr / two ** e                                    # in [1, 2)
+        frac = m - 1
+        digs = ""
+        for _ in range(16):
+            frac *= 16
+            d = frac.numerator // frac.denominator
+            digs += "%x" % d
+            frac -= d
+        assert frac == 0
+        return "0x1.%sp%+d" % (digs.rstrip("0") or "0", e)
+    tiny = two ** (emax - 52) if width == 32 else None       # one double ulp at the top binade, for float32 only
+    hpts = [M, mid, minn, mins, mins / 2, mins * 3 / 2, mins * 3 / 4]
+    if width == 32:
+        hpts += [mid - tiny, mid + tiny, M + tiny, mins / 2 + two ** (emin - pb - 40), mins * 3 / 2 - two ** (emin - pb - 40)]
+    for fr in hpts:
+        lits.append((hx(fr), fr))
+    if width == 32:
+        lits += [("16777217.000001", Fraction(Decimal("16777217.000001"))), ("16777217.0", Fraction(16777217)),
+                 ("3.40282347e+38", Fraction(Decimal("3.40282347e+38"))), ("3.4028235e38", Fraction(Decimal("3.4028235e38")))]
+    else:
+        lits += [("1.7976931348623157e308", Fraction(Decimal("1.7976931348623157e308"))), ("4.9406564584124654e-324", Fraction(Decimal("4.9406564584124654e-324"))),
+                 ("2.4703282292062327e-324", Fraction(Decimal("2.4703282292062327e-324"))), ("2.4703282292062328e-324", Fraction(Decimal("2.4703282292062328e-324")))]
+    seen, out = set(), []
+    for t, fr in lits:
+        if t not in seen:
+            seen.add(t); out.append((t, fr))
+    return out
+
+
+HEXFLOAT_INT_WITNESSES = ["compile local a: int32 = 0x1p4", "compile local a: int32 = 0x1.8p1"]
+
+
+def hexfloat_int_probe(ctx, viol, nontrivial, dist):
+    """an integral constant spelled as a hexadecimal float: must behave like its decimal spelling (16.0 -> 16)"""
+    n = 0
+    for lit, want in (("0x1p4", "16"), ("16.0", "16"), ("0x1.8p1", "3"), ("-0x1p4", "-16")):
+        path = os.path.join(ctx.work, "hfi-%d.nelua" % os.getpid())
+        with open(path, "w") as f:
+            f.write("local a: int32 = %s print(a)\n" % lit)
+        cdir = os.path.join(ctx.work, "probe-cache-h-%d" % os.getpid())
+        rc, o, e = vlib.nelua(["--cache-dir", cdir, path], timeout=300)
+        import shutil
+        shutil.rmtree(cdir, ignore_errors=True)
+        try:
+            os.remove(path)
+        except OSError:
+            pass
+        n += 1
+        dist["hexfloat-int-probe"] = dist.get("hexfloat-int-probe", 0) + 1
+        got = o.strip() if rc == 0 else "!compiler: " + (e.strip().split("\n") or [""])[0][-120:]
+        if got != want:
+            viol("compile local a: int32 = %s" % lit, "`local a: int32 = %s print(a)` gives %s, expected %s (what the decimal spelling gives)" % (lit, got, want),
+                 {"case": lit, "implementation": got, "oracle": want})
+        else:
+            nontrivial.add("hfi " + lit)
+    return n
+
+
+def boundary_probe(ctx, viol, nontrivial, dist):
+    """end to end: every boundary literal of both widths, with both signs, through three routes - A: literal with the type
+    suffix, B: literal with the type as desired type (typed local), C: float64 compile-time constant converted to the type -
+    compiled by the real compiler; the program prints the BITS of each value.  Oracle: the correctly rounded value of the
+    type (route C: of the double the constant holds)."""
+    cases = []          # (key, width, route, neg, text, want_bits, pred_bits)
+    via64 = {}          # key -> bits of the double constant converted to the type
+    src = ["require 'string'",
+           "local function b32(x: float32) local u: union{f: float32, i: uint32}; u.f = x; print(string.format('%08x', u.i)) end",
+           "local function b64(x: float64) local u: union{f: float64, i: uint64}; u.f = x; print(string.format('%016x', u.i)) end"]
+    n = 0
+    for width in (32, 64):
+        T = "float%d" % width
+        for text, fr in boundary_literals(width):
+            d = rnd_w(64, fr)                                   # the double the compiler's reader holds (None: infinity)
+            for neg in (False, True):
+                lit = ("-" if neg else "") + text
+                for route in "ABC":
+                    if width == 64 and route == "C":
+                        continue
+                    # what the type must hold: A, B - the literal correctly rounded to the type; C - the double constant converted
+                    if route == "C":
+                        want = None if d is None else rnd_w(width, d)
+                    else:
+                        want = rnd_w(width, fr)
+                    pred = want
+                    if width == 32:
+                        pred = None if d is None else f32_via_9_digits(float(d))
+                    n += 1
+                    if route == "A":
+                        src.append("b%d(%s_f%d)" % (width, lit, width))
+                    elif route == "B":
+                        src.append("local v%d: %s = %s b%d(v%d)" % (n, T, lit, width, n))
+                    else:
+                        src.append("local c%d <comptime> = %s local v%d: %s = c%d b%d(v%d)" % (n, lit, n, T, n, width, n))
+                    cases.append(("lit%d %s %s" % (width, route, lit), width, route, neg, lit, fbits(width, want, neg), fbits(width, pred, neg)))
+                    via64["lit%d %s %s" % (width, route, lit)] = fbits(width, None if d is None else rnd_w(width, d), neg)
+    path = os.path.join(ctx.work, "boundary-%d.nelua" % os.getpid())
+    with open(path, "w") as f:
+        f.write("\n".join(src) + "\n")
+    exe = os.path.join(ctx.work, "boundary-%d" % os.getpid())
+    cdir = os.path.join(ctx.work, "probe-cache-b-%d" % os.getpid())
+    rc, o, e = vlib.nelua(["--cache-dir", cdir, "-b", "-o", exe, path], timeout=900)
+    import shutil
+    shutil.rmtree(cdir, ignore_errors=True)
+    if rc != 0:
+        viol("boundary-probe", "the boundary probe program does not compile: %s" % (o + e)[-600:], {"program": path, "stderr": (o + e)[-1500:]})
+        return 0
+    rc, o, e = vlib.sh([exe], timeout=120)
+    outs = o.split("\n")
+    for junk in (exe, path):
+        try:
+            os.remove(junk)
+        except OSError:
+            pass
+    if rc != 0 or len(outs) < len(cases):
+        viol("boundary-probe", "the boundary probe program printed %d lines for %d literals (rc %s)" % (len(outs), len(cases), rc), {"stderr": e[-500:]}, failing=False, kind="harness")
+        return 0
+    got_by_key = {c[0]: g for c, g in zip(cases, outs)}
+    w0 = F32_TEXT_WITNESSES[0]
+    witness_fails = any(c[0] == w0 and got_by_key[w0] != c[5] for c in cases)
+    for (key, width, route, neg, lit, want, pred), got in zip(cases, outs):
+        dist["boundary-probe"] = dist.get("boundary-probe", 0) + 1
+        if got == want:
+            nontrivial.add(key)
+        elif width == 32 and route in "AB" and got == via64[key] and got != want:
+            # documented limitation, not a finding: a float32 literal is a binary64 at compile time, so a literal with more than
+            # 17 digits whose double is exactly a float32 tie is rounded twice by construction
+            k = "documented:float32-literal-is-binary64-at-compile-time(two roundings)"
+            dist[k] = dist.get(k, 0) + 1
+        elif key not in F32_TEXT_WITNESSES and width == 32 and got == pred and witness_fails:
+            # exactly what the model of the unchanged emitter (9 significant digits of the double, read as a float constant) gives
+            k = "predicted-by-model:cemitter.add_scalar_literal:float32-through-9-digits(double constant)"
+            dist[k] = dist.get(k, 0) + 1
+        else:
+            viol(key, "%s literal %s (route %s) reaches the program as %s, the correctly rounded value of the type is %s" % ("float%d" % width, lit, route, got, want),
+                 {"case": key, "implementation": got, "oracle": want, "model_of_unchanged_emitter": pred})
+    return len(cases)
 
 
 def probe_programs(ctx, rng, info, model, viol, nontrivial, dist, reader_witness):
